@@ -39,6 +39,10 @@ def main(argv=None):
         rules_axis.MODEL = m
         rules_axis._RET_CACHE.clear()
         mod.check(m, run)
+        if tier == 'thorough' and not a.replay:
+            from . import selftest
+            selftest.battery(pid, run, model.REPO)
+            rules_axis.MODEL = m
     except model.AnalysisError as ex:
         run.error(str(ex))
     except Exception as ex:  # a crash of the checker is never a verdict
